@@ -279,6 +279,25 @@ Section DictFacts.
       symmetry. now apply mut_extend_perm.
   Qed.
 
+  (* the driver's bulk load of the (sorted) curated list: sort and dedup are the identity *)
+  Lemma isort_adj_sorted (l : list (text * meta)) :
+    adj_sorted l = true -> wsort l = l.
+  Proof.
+    unfold wsort. induction l as [|a rest IH]; intros H; [reflexivity|].
+    cbn [isort]. destruct rest as [|b rest']; [reflexivity|].
+    change (adj_sorted (a :: b :: rest')) with (text_leb (fst a) (fst b) && adj_sorted (b :: rest')) in H.
+    apply andb_true_iff in H as [H1 H2]. rewrite (IH H2). cbn [insert_by]. now rewrite H1.
+  Qed.
+
+  Theorem fst_new_bulk ws : adj_sorted ws = true -> NoDup (ids_of ws) ->
+    fst_new ws = mkfst (map entry_of ws) ws.
+  Proof.
+    intros Hs ND. unfold DictModel.fst_new. rewrite (isort_adj_sorted ws Hs).
+    assert (E : wdedup ws = ws).
+    { unfold wdedup. apply (dedup_by_distinct (@fst text meta)). now apply ids_distinct_spellings. }
+    rewrite E. f_equal. now apply mut_extend_distinct_ids.
+  Qed.
+
   (* ---------- From<MutableDictionary> for FstDictionary (the only constructor call in the crate) ---------- *)
   Notation fst_of_mutable := (fst_of_mutable is_lower lower).
   Definition entries_of (m : wordmap) : list (text * meta) :=
